@@ -142,6 +142,10 @@ func (ex *Exec) internal(format string, a ...interface{}) {
 	panic(&InternalError{Msg: msg})
 }
 
+// hangAbort: in a sequential harness (which is the whole world of the scenario) the code
+// under test waits for something that can never happen. No defer runs, nothing recovers it.
+type hangAbort struct{ Msg, Where string }
+
 func (ex *Exec) goPanicf(format string, a ...interface{}) {
 	msg := fmt.Sprintf(format, a...)
 	where := ""
@@ -258,7 +262,18 @@ func (ex *Exec) arrayOf(s SliceVal) []Value {
 	if s.Arr == nil {
 		return nil
 	}
-	return ex.objVal(s.Arr).(*ArrayVal).E
+	v := ex.objVal(s.Arr)
+	for _, i := range s.Pre {
+		switch x := v.(type) {
+		case *StructVal:
+			v = x.F[i]
+		case *ArrayVal:
+			v = x.E[i]
+		default:
+			ex.internal("slice prefix path through %T", v)
+		}
+	}
+	return v.(*ArrayVal).E
 }
 
 func (ex *Exec) sliceElems(s SliceVal) []Value {
@@ -1053,7 +1068,7 @@ func (ex *Exec) indexAddr(fr *frame, in *ssa.IndexAddr) Value {
 	switch xv := x.(type) {
 	case SliceVal:
 		i := ex.indexIn(idx, xv.Len)
-		return Ptr{Obj: xv.Arr, Path: []int{xv.Off + i}}
+		return xv.elemPtr(i)
 	case Ptr:
 		if xv.Obj == nil {
 			ex.goPanicf("invalid memory address or nil pointer dereference")
@@ -1095,7 +1110,7 @@ func (ex *Exec) sliceOp(fr *frame, in *ssa.Slice) Value {
 		if xv.Arr == nil {
 			return SliceVal{}
 		}
-		return SliceVal{Arr: xv.Arr, Off: xv.Off + lo, Len: hi - lo, Cap: mx - lo}
+		return SliceVal{Arr: xv.Arr, Off: xv.Off + lo, Len: hi - lo, Cap: mx - lo, Pre: xv.Pre}
 	case Ptr:
 		// pointer to array
 		if xv.Obj == nil {
@@ -1108,11 +1123,8 @@ func (ex *Exec) sliceOp(fr *frame, in *ssa.Slice) Value {
 		if lo < 0 || hi < lo || mx < hi || mx > n {
 			ex.goPanicf("slice bounds out of range [%d:%d:%d] with capacity %d", lo, hi, mx, n)
 		}
-		if len(xv.Path) != 0 {
-			// array nested in a struct: materialise as its own object is not alias-safe
-			ex.internal("slice of nested array unsupported")
-		}
-		return SliceVal{Arr: xv.Obj, Off: lo, Len: hi - lo, Cap: mx - lo}
+		// an array nested in a struct (or in another array) is addressed through the path prefix
+		return SliceVal{Arr: xv.Obj, Off: lo, Len: hi - lo, Cap: mx - lo, Pre: append([]int{}, xv.Path...)}
 	}
 	ex.internal("Slice on %T", x)
 	return nil
